@@ -56,7 +56,7 @@ def path(draw, K, lo, hi, places=2, constant_ok=True):
     for i in range(n):
         if i > 0 and draw(gen.chance(1, 3)):
             cur = draw(st.integers(lo, hi))
-        vals.append(('%d.%0*d' % (cur // scale, places, cur % scale)))
+        vals.append(('-' if cur < 0 else '') + ('%d.%0*d' % (abs(cur) // scale, places, abs(cur) % scale)))
     return vals
 
 
@@ -144,7 +144,9 @@ def economy(draw, zones=(1, 3), horizon=(3, 5), want_cross=None, gold=True, fede
         if kind == 'single':
             c = draw(country(codes[0], 'full', K, gold_left > 0))
             add_private(draw, c, K, c['deposit'] is not None)
-            c['G'] = draw(path(K, 0, 20000))
+            # (government demand is normally a purchase; sometimes the government is a net SELLER in some periods, large
+            # enough for the market's total demand to turn negative)
+            c['G'] = draw(path(K, draw(st.sampled_from([0, 0, 0, 0, 0, -15000])), 20000))
             zone['countries'].append(c)
         else:
             c0 = draw(country(codes[0], 'central', K, gold_left > 0))
@@ -157,7 +159,7 @@ def economy(draw, zones=(1, 3), horizon=(3, 5), want_cross=None, gold=True, fede
                 # REG2 idiom: a Region created without a currency takes the currency of the country declared before it
                 m['default_currency'] = draw(st.booleans())
                 add_private(draw, m, K, c0['deposit'] is not None)
-                m['G'] = draw(path(K, 0, 20000))
+                m['G'] = draw(path(K, draw(st.sampled_from([0, 0, 0, 0, 0, -15000])), 20000))
                 zone['countries'].append(m)
         for c in zone['countries']:
             if c['gov'] and c['gov']['kind'] in ('gold', 'gold_cb'):
@@ -220,6 +222,9 @@ def economy(draw, zones=(1, 3), horizon=(3, 5), want_cross=None, gold=True, fede
         if l['kind'] == 'import':
             same = [x for x in spec['links'] if x['kind'] == 'import' and x['src'] == l['src']]
             l['residual'] = draw(st.sampled_from(['foreign', 'domestic', 'domestic'])) if len(same) == 1 else 'domestic'
+            if l['residual'] == 'domestic' and len(same) == 1 and draw(gen.chance(1, 4)):
+                # an import QUOTA given as a plain number (possibly zero), declared after the residual (home) supplier
+                l['quota'] = draw(st.sampled_from([0.0, 0.0, 2.5, 10.0, 0]))
     # 'end': the external sector is created last of all, after every sector has been declared and wired
     if need_ext:
         spec['external'] = draw(st.sampled_from(['first', 'middle', 'last', 'end']))
@@ -260,6 +265,12 @@ def economy(draw, zones=(1, 3), horizon=(3, 5), want_cross=None, gold=True, fede
 
 PROBE_KINDS = ['zone-sectors', 'zone-lookup', 'model-sectors', 'country-lookup', 'model-lookup', 'dump', 'loginfo',
                'zone-sectors', 'zone-lookup', 'shared-zone', 'other-model', 'other-model', 'cross-rate', 'cross-rate']
+
+
+def _fresh(code):
+    """An equal string that is a different object (codes that arrive from a file or are assembled on the spot are
+    equal to, not identical with, the codes the sectors were created with)."""
+    return ''.join(list(code))
 
 
 def run_probe(kind, mod, out, allow_loginfo=True):
@@ -506,7 +517,7 @@ def _construct(spec, out, mod, zsel, nm, dsc, make_external, order_seed, hooks, 
                 decls.append(((zi, ci, 'tax'), [],
                               (lambda cobj=cobj, t=t, zi=zi, ci=ci, g=g:
                                TaxFlow(cobj, nm(zi, ci, t['code']), dsc('tax'), taxrate=float(t['rate']),
-                                       taxes_paid_to=nm(zi, ci, g['code'])))))
+                                       taxes_paid_to=_fresh(nm(zi, ci, g['code']))))))
             if c['hh']:
                 decls.append(((zi, ci, 'labour'), [], (lambda cobj=cobj, labour=labour: Market(cobj, labour, dsc('labour')))))
                 decls.append(((zi, ci, 'goods'), [], (lambda cobj=cobj, goods=goods: Market(cobj, goods, dsc('goods')))))
@@ -519,17 +530,17 @@ def _construct(spec, out, mod, zsel, nm, dsc, make_external, order_seed, hooks, 
                 decls.append(((zi, ci, 'money'), [],
                               (lambda cobj=fobj, c=c, issuer=issuer, zi=zi, ci=ci:
                                MoneyMarket(cobj, nm(zi, ci, c['money']['code']), dsc('money'),
-                                           issuer_short_code=nm(zi, ci, issuer)))))
+                                           issuer_short_code=_fresh(nm(zi, ci, issuer))))))
             if c.get('bonds') is not None:
                 decls.append(((zi, ci, 'bonds'), [],
                               (lambda cobj=fobj, c=c, zi=zi, ci=ci, g=g:
                                DepositMarket(cobj, nm(zi, ci, c['bonds']['code']), dsc('bonds'),
-                                             issuer_short_code=nm(zi, ci, g['code'])))))
+                                             issuer_short_code=_fresh(nm(zi, ci, g['code']))))))
             if c['deposit'] is not None:
                 decls.append(((zi, ci, 'deposit'), [],
                               (lambda cobj=fobj, c=c, zi=zi, ci=ci, g=g:
                                DepositMarket(cobj, nm(zi, ci, c['deposit']['code']), dsc('deposit'),
-                                             issuer_short_code=nm(zi, ci, g['code'])))))
+                                             issuer_short_code=_fresh(nm(zi, ci, g['code']))))))
     # ---- order: dependency-respecting shuffle driven by order_seed
     pending = list(decls)
     done = set()
@@ -648,6 +659,9 @@ def _construct(spec, out, mod, zsel, nm, dsc, make_external, order_seed, hooks, 
                 market.AddVariable(mu, dsc('share of the home producer'), l['mu'])
                 market.AddSupplier(S[(a[0], a[1], 'bus')], '%s*SUP_%s' % (mu, market.Code))
                 market.AddSupplier(foreign)
+            elif l.get('quota') is not None:
+                market.AddSupplier(S[(a[0], a[1], 'bus')])
+                market.AddSupplier(foreign, l['quota'])
             else:
                 market.AddVariable(mu, dsc('propensity to import'), l['mu'])
                 market.AddSupplier(foreign, '%s*%s' % (mu, hh.GetVariableName('INC')))
